@@ -42,7 +42,7 @@ def main():
     for kind, pid, prop, out, det in res:
         by.setdefault((kind, pid), {})[prop] = (out, det)
     lines = []
-    lines.append('| change | breaks | what was changed | reported by its own check (rule [construct]) | also reported by | first contact (round 2) |')
+    lines.append('| change | breaks | what was changed | reported by its own check (rule [construct]) | also reported by | first contact (rounds 2 and 3) |')
     lines.append('|---|---|---|---|---|---|')
     n_hit = n = 0
     for (kind, pid), rs in sorted(by.items()):
@@ -58,7 +58,7 @@ def main():
         others = ' '.join(p for p in ALL if p != target and rs[p][0] == 'exit1')
         e2 = ' '.join(f'{p}(exit 2)' for p in ALL if rs[p][0] == 'exit2')
         fc = ''
-        if re.search(r'-[4-9]$', pid):        # round 2: meta.json keeps what the checks said BEFORE anything was changed for it
+        if re.search(r'-[4-9]$', pid):        # rounds 2 and 3: meta.json keeps what the checks said BEFORE anything was changed for it
             fc = ('own check' if meta.get('detected_by_target_check') else
                   ('only ' + ' '.join(meta.get('detected_by') or []) if meta.get('detected_by') else 'missed by all'))
             if target in (meta.get('analysis_errors') or {}):
